@@ -295,7 +295,9 @@ func (p *FSM) Update(updates []sm.Entry) ([]sm.Entry, error) {
 			return nil, err
 		}
 
-		if len(res.Responses) > 0 {
+		// Every command but the no-op reports its result (and revision) even if it produced no
+		// per-operation responses, e.g. a transaction whose executed branch is empty.
+		if _, noop := cmd.(commandDummy); !noop {
 			bts, err := res.MarshalVT()
 			if err != nil {
 				return nil, err
